@@ -460,4 +460,205 @@ theorem lemma_core_cons (hP : FloatSane P) (p : Prim) (isPtr : Bool) (iv : Val) 
         Bool.or_self, Bool.false_and, Bool.false_eq_true, if_false, List.map_map, Function.comp_def, hkvs,
         Option.toList_some, List.map_cons, List.map_nil, List.mem_singleton]
 
+
+/-! ### assembling the map leaf -/
+
+/-- the entries of the map field `full` in the source (none for sources without key enumeration) -/
+def entriesOf (s : Src) (full : Bytes) : List (Bytes × Bytes) := if isQF s.kind then mEntries full s.kvs else []
+
+/-- the JSON-object entries under the bare key, as the oracle reads them -/
+def jsonOf (s : Src) (full : Bytes) : List (Bytes × Bytes) :=
+  match present s full with
+  | some (v :: _) => if v.isEmpty then [] else ((P v).j).getD []
+  | _ => []
+
+theorem lemma_setMap_core (p : Prim) (isPtr : Bool) (cur : Val) (g : Getter) (name : Bytes) (ty : Ty)
+    (hty : ty = if isPtr then .ptr (.map (.prim p)) else .map (.prim p)) :
+    setMap P cfg ty cur g name =
+      setMapCore P cfg p isPtr (mapOf (some cur)) (entriesOf g.src (g.pre ++ name)) (g.has name) (g.get name) := by
+  have hm0 : curMap cur = mapOf (some cur) := by
+    cases cur with
+    | map kvs => rfl
+    | ptr y => cases y <;> rfl
+    | _ => rfl
+  unfold setMap setMapCore entriesOf
+  simp only [hm0]
+  cases hq : isQF g.src.kind with
+  | true =>
+    simp only [if_true, lemma_count_entries, lemma_found_entries, Bool.true_and]
+    cases isPtr with
+    | false =>
+      simp only [hty, Bool.false_eq_true, if_false, lemma_bindMapEntries, mapWrap]
+      split
+      · rfl
+      · cases bindEs P cfg p (mEntries (g.pre ++ name) g.src.kvs) 0 (mapOf (some cur)) with
+        | error e => rfl
+        | ok m1 =>
+          simp only [Bool.not_not]
+          split
+          · split
+            · rfl
+            · cases (P (g.get name)).j with
+              | none => rfl
+              | some es =>
+                simp only
+                split
+                · rfl
+                · cases jsonEntries P cfg (.prim p) es m1 <;> rfl
+          · rfl
+    | true =>
+      simp only [hty, if_true, lemma_bindMapEntries, mapWrap]
+      split
+      · rfl
+      · cases bindEs P cfg p (mEntries (g.pre ++ name) g.src.kvs) 0 (mapOf (some cur)) with
+        | error e => rfl
+        | ok m1 =>
+          simp only [Bool.not_not]
+          split
+          · split
+            · rfl
+            · cases (P (g.get name)).j with
+              | none => rfl
+              | some es =>
+                simp only
+                split
+                · rfl
+                · cases jsonEntries P cfg (.prim p) es m1 <;> rfl
+          · rfl
+  | false =>
+    simp only [Bool.false_eq_true, if_false, List.length_nil, Nat.lt_irrefl, decide_false, Bool.false_and,
+      bindEs, List.isEmpty_nil, Bool.true_and, Bool.not_false, gt_iff_lt]
+    cases isPtr with
+    | false =>
+      simp only [hty, Bool.false_eq_true, if_false, mapWrap]
+      split
+      · split
+        · rfl
+        · cases (P (g.get name)).j with
+          | none => rfl
+          | some es =>
+            simp only
+            split
+            · rfl
+            · cases jsonEntries P cfg (.prim p) es (mapOf (some cur)) <;> rfl
+      · rfl
+    | true =>
+      simp only [hty, if_true, mapWrap]
+      split
+      · split
+        · rfl
+        · cases (P (g.get name)).j with
+          | none => rfl
+          | some es =>
+            simp only
+            split
+            · rfl
+            · cases jsonEntries P cfg (.prim p) es (mapOf (some cur)) <;> rfl
+      · rfl
+
+
+theorem lemma_specKey_any : ∀ E : List (Bytes × Bytes),
+    (E.map specKey).any (fun e => e.1.isNone) = E.any (fun e => e.1.isEmpty)
+  | [] => rfl
+  | e :: r => by
+    simp only [List.map_cons, List.any_cons, lemma_specKey_any r, specKey]
+    cases e.1.isEmpty <;> simp
+
+theorem lemma_specKey_filter : ∀ E : List (Bytes × Bytes),
+    (E.map specKey).filterMap (fun e => e.1.map (·, e.2)) = E.filter (fun e => !e.1.isEmpty)
+  | [] => rfl
+  | e :: r => by
+    simp only [List.map_cons, List.filterMap_cons, List.filter_cons, specKey]
+    cases h : e.1.isEmpty <;> simp [lemma_specKey_filter r]
+
+theorem lemma_mapEntries_E (s : Src) (full : Bytes) : mapEntries s full = (entriesOf s full).map specKey := by
+  unfold entriesOf
+  cases hq : isQF s.kind with
+  | true => simp [lemma_mapEntries_qf s full hq]
+  | false => simp [lemma_mapEntries_nqf s full hq]
+
+theorem lemma_expectMap_E (s : Src) (l : Leaf) (p : Prim) (isPtr : Bool) (m0 : List (Bytes × Val)) :
+    expectMap P cfg s l (.prim p) isPtr m0 =
+      mapExpectOf P cfg p isPtr m0 (entriesOf s (l.keys.headD [])) (jsonOf P s (l.keys.headD [])) := by
+  unfold expectMap mapExpectOf jsonOf
+  simp only [lemma_mapEntries_E, lemma_specKey_any, lemma_specKey_filter, List.length_map, List.isEmpty_map, mapWrap]
+  cases isPtr <;> rfl
+
+
+theorem lemma_prefix_bracket (full : Bytes) : hasPrefix (full ++ B "[]") (full ++ B "[") = true := by
+  unfold hasPrefix
+  induction full with
+  | nil => decide
+  | cons c r ih => simpa [List.isPrefixOf] using ih
+
+/-- without dot/bracket entries, the oracle's JSON-object entries are what `Has`/`Get` of the bare
+    key deliver -/
+theorem lemma_json_link (g : Getter) (hs : srcOK g.src = true) (name : Bytes)
+    (hE : entriesOf g.src (g.pre ++ name) = []) :
+    jsonOf P g.src (g.pre ++ name) =
+      if g.has name then (if (g.get name).isEmpty then [] else ((P (g.get name)).j).getD []) else [] := by
+  -- no key extends the full key with a dot or a bracket
+  have hno : isQF g.src.kind = true → ∀ e ∈ g.src.kvs,
+      hasPrefix e.1 (g.pre ++ name ++ B ".") = false ∧ hasPrefix e.1 (g.pre ++ name ++ B "[") = false := by
+    intro hq e he
+    have : mEntries (g.pre ++ name) g.src.kvs = [] := by simpa [entriesOf, hq] using hE
+    exact lemma_no_entries _ _ this e he
+  have hdot : dotAmb g.src g.nested (g.pre ++ name) = false := by
+    unfold dotAmb
+    cases hq : isQF g.src.kind with
+    | false => simp
+    | true =>
+      simp only [Bool.true_and, Bool.and_eq_false_iff, List.any_eq_false]
+      right
+      intro e he
+      simpa using (hno hq e he).1
+  have hbr : bracketOnly g.src (g.pre ++ name) = false := by
+    unfold bracketOnly
+    cases hq : isQF g.src.kind with
+    | false => simp
+    | true =>
+      simp only [Bool.true_and, Bool.and_eq_false_iff]
+      cases hb : assoc (g.pre ++ name ++ B "[]") g.src.kvs with
+      | none => right; rfl
+      | some ws =>
+        have hm := lemma_assoc_mem _ _ _ hb
+        have := (hno hq _ hm).2
+        rw [lemma_prefix_bracket] at this
+        cases this
+  have hhas : g.has name = (present g.src (g.pre ++ name)).isSome := by
+    rw [lemma_has_full]
+    exact lemma_hasFull_present g.src g.nested hs _ hdot
+  unfold jsonOf
+  cases hp : present g.src (g.pre ++ name) with
+  | none => simp [hhas, hp]
+  | some vs =>
+    have hget : g.get name = vs.headD [] := lemma_get_present g.src hs _ vs hp hbr
+    simp only [hhas, hp, Option.isSome_some, if_true, hget]
+    cases vs with
+    | nil => simp
+    | cons v r => simp
+
+/-- **map leaf** (`map[string]V` and `*map[string]V`): entries in dot / bracket notation, or a
+    JSON object under the bare key; the size limit applies to both -/
+theorem lemma_leaf_map (nest : Nest) (hP : FloatSane P) (g : Getter) (hs : srcOK g.src = true) (d : Nat)
+    (f : FieldInfo) (l : Leaf) (p : Prim) (isPtr : Bool) (hl : LeafLink P g f l)
+    (hty : f.ty = if isPtr then .ptr (.map (.prim p)) else .map (.prim p)) (iv : Val) :
+    wants g f = true ∧
+    LeafOK (expectMap P cfg g.src l (.prim p) isPtr (mapOf (some iv))) false iv f.name
+      (fieldAction P cfg nest g d f iv) := by
+  have hmp : isMapTy f.ty = true := by rw [hty]; cases isPtr <;> simp [isMapTy]
+  refine ⟨by simp [wants, hmp], ?_⟩
+  have hfa : fieldAction P cfg nest g d f iv = sliceOut f.name (setMap P cfg f.ty iv g f.tagName) := by
+    unfold fieldAction
+    simp only [hmp, if_true, sliceOut]
+    cases setMap P cfg f.ty iv g f.tagName <;> rfl
+  have hfull : l.keys.headD [] = g.pre ++ f.tagName := by rw [hl.keys]; rfl
+  rw [hfa, lemma_setMap_core P cfg p isPtr iv g f.tagName f.ty hty, lemma_expectMap_E, hfull]
+  cases hE : entriesOf g.src (g.pre ++ f.tagName) with
+  | nil =>
+    rw [lemma_json_link P g hs f.tagName hE]
+    exact lemma_core_nil P cfg hP p isPtr iv f.name _ _ _
+  | cons e0 r0 =>
+    exact lemma_core_cons P cfg hP p isPtr iv f.name _ (e0 :: r0) (by simp) _ _ _
+
 end Rivaas.Bind
